@@ -47,7 +47,9 @@ BTYPES = {'Buildable': Buildable, 'Config': fdl.Config, 'Partial': fdl.Partial}
 
 def plan(tier):
   n = 70 if tier == 'quick' else 5000
-  return [{'name': f's{i}', 'kind': 'main', 'n': n, 'start': i * n} for i in range(16)]
+  nl = 60 if tier == 'quick' else 3000
+  return ([{'name': f's{i}', 'kind': 'main', 'n': n, 'start': i * n} for i in range(16)] +
+          [{'name': 'late-abc', 'kind': 'late-abc', 'n': nl, 'start': 0}])
 
 
 def model_matches(node: gen.B, F, match_sub, btype_name):
@@ -215,6 +217,10 @@ def run_case(rng, acc):
         nodes_t = list({id(memo_t[n.uid]): memo_t[n.uid] for n in exp_nodes}.values())
         if len(nodes_t) >= 2:
           before_t = [frozenset(fdl.get_tags(b_, param)) for b_ in nodes_t]
+          if any(vtags.TagA not in x for x in before_t):
+            acc.violation('set:matching-node-not-updated', 'set(p=Tag.new(v)) left a matching node '
+                          'without the tag', witness(selector=sel_desc))
+            continue
           fdl.add_tag(nodes_t[0], param, vtags.TagB)
           fdl.remove_tag(nodes_t[0], param, vtags.TagA)
           acc.obs('set_with_tagged_value_then_tag_edit')
@@ -335,6 +341,24 @@ def _common_param(nodes):
   return None
 
 
+def run_late_abc(spec, acc):
+  import random
+  r0 = random.Random(spec.get('start', 0))
+  for _ in range(10):       # selections while nothing is a subclass yet
+    cfg = fdl.Config(kinds.node, a=fdl.Config(kinds.Leaf), b=[fdl.Config(kinds.Mid, x=r0.randint(0, 3))])
+    if list(fsel.select(cfg, kinds.LateVirtualBase, check_nonempty=False)):
+      acc.violation('iteration:non-matching-node-yielded', 'before the registration', {'case': 'late-abc'})
+    acc.obs('selected_before_virtual_registration')
+  kinds.LateVirtualBase.register(kinds.Leaf)
+  kinds.LateVirtualBase.register(kinds.Mid)
+  SELECT_FNS.extend([kinds.LateVirtualBase] * 6)
+  for _, rng in acc.cases(spec):
+    run_case(rng, acc)
+    acc.obs('cases_after_late_virtual_registration')
+
+
 def run_shard(spec, seed, acc):
+  if spec.get('kind') == 'late-abc':
+    return run_late_abc(spec, acc)
   for _, rng in acc.cases(spec):
     run_case(rng, acc)
